@@ -77,6 +77,32 @@ func parsePieces(env *zygo.Zlisp, pieces []string) (out parseOut) {
 	return out
 }
 
+// parseQueued hands all pieces over before the parser reads any of them (new input queues up behind unread input).
+func parseQueued(env *zygo.Zlisp, pieces []string) (out parseOut) {
+	defer func() {
+		if r := recover(); r != nil {
+			out = parseOut{kind: "panic", errTxt: fmt.Sprint(r)}
+		}
+	}()
+	p := env.VerifParser()
+	p.ResetAddNewInput(bytes.NewBufferString(pieces[0]))
+	for _, pc := range pieces[1:] {
+		p.NewInput(bytes.NewBufferString(pc))
+	}
+	xs, err := p.ParseTokens()
+	out.exprs = renderExprs(xs)
+	switch {
+	case err == nil:
+		out.kind = "ok"
+	case err == zygo.ErrMoreInputNeeded:
+		out.kind = "more"
+	default:
+		out.kind = "hard"
+		out.errTxt = err.Error()
+	}
+	return out
+}
+
 // R8: does the text end inside an open bracket, string, raw string or block
 // comment? unknown=true when it ends inside a construct the property does not
 // list (character literal) or brackets are mismatched.
@@ -261,6 +287,42 @@ func c13text(c *engine.Ctx, env *zygo.Zlisp, text string, twoCuts bool) {
 	c.Outcome(whole.kind + "|" + whole.exprs)
 	if whole.kind != "ok" && whole.kind != "hard" {
 		return
+	}
+	// (0) all pieces queued up front: 3, 4 and 5 pieces of equal length, and (short texts) every pair of cut positions
+	if whole.kind == "ok" && len(rs) >= 3 {
+		var splits [][]int
+		for _, k := range []int{3, 4, 5} {
+			if len(rs) >= k {
+				var cut []int
+				for q := 1; q < k; q++ {
+					cut = append(cut, q*len(rs)/k)
+				}
+				splits = append(splits, cut)
+			}
+		}
+		if len(rs) <= 14 {
+			for i := 1; i < len(rs); i++ {
+				for j := i + 1; j < len(rs); j++ {
+					splits = append(splits, []int{i, j})
+				}
+			}
+		}
+		for _, cut := range splits {
+			var pieces []string
+			prev := 0
+			for _, q := range cut {
+				pieces = append(pieces, string(rs[prev:q]))
+				prev = q
+			}
+			pieces = append(pieces, string(rs[prev:]))
+			c.Count("queued_deliveries", 1)
+			got := parseQueued(env, pieces)
+			if got.kind == "panic" {
+				viol("panic", fmt.Sprintf("pieces %q queued: %s", pieces, got.errTxt))
+			} else if got.kind != "ok" || got.exprs != whole.exprs {
+				viol("queued-pieces", fmt.Sprintf("text %q handed over as the queued pieces %q gives %s [%s] %s; whole gives [%s]", text, pieces, got.kind, got.exprs, got.errTxt, whole.exprs))
+			}
+		}
 	}
 	// (1) chunking
 	for i := 1; i < len(rs); i++ {
